@@ -45,6 +45,7 @@ KNOWN = [  # (finding id, selector, corpus file, witness name)
     ("F4cap", cc.SEL_CAP, "max_tracks_exceeded.json", "max_tracks_exceeded"),
     ("F4iv", cc.SEL_IV, "flow_all_nan_fixed_window.json", "flow_all_nan_fw"),
     ("F4iv", cc.SEL_IV, "flow_all_nan_local_queue.json", "flow_all_nan_lq"),
+    ("F4iv", cc.SEL_IV, "nan_instance_fixed_window.json", "nan_instance_fw"),
 ]
 
 
@@ -207,8 +208,9 @@ def evaluate(run, cases, fixes, label, widened=False):
                     check_bad += 1
                     why = why or f"frame {k}: candidates of the implementation {rec['cands']} != model {cands}"
             if loose_nan:
-                if "scores" in rec and any(not cl and not all(math.isnan(row[t]) for row in rec["scores"].tolist())
-                                           for t, cl in enumerate(cands)):
+                if "scores" in rec and (rec["scores"].shape[1] != len(cands) or any(
+                        not cl and not all(math.isnan(row[t]) for row in rec["scores"].tolist())
+                        for t, cl in enumerate(cands))):
                     check_bad += 1
                     why = why or f"frame {k}: a track without candidate has a score"
                 nan_ok = True
@@ -449,6 +451,16 @@ def check(run: core.Run) -> int:
                                                   "x_max_tracks", "x_invalid_name", "x_below_threshold",
                                                   "x_nan_keypoints", "candidate_lists_compared")}))
     check_matchers(run, 1500 if thorough else 300, fixes)
+    # Tracker.from_config: the only branch not reached through the histories
+    try:
+        cc.impl()["Tracker"].from_config(candidates_method="sliding_window")
+        bad_method = "no exception"
+    except ValueError as e:
+        bad_method = None if "not a valid method" in str(e) else f"ValueError({e})"
+    except Exception as e:                                   # noqa: BLE001
+        bad_method = type(e).__name__
+    run.obligation("Tracker.from_config rejects an unknown candidates_method with ValueError", bad_method is None,
+                   str(bad_method))
 
     run.coverage.update({
         "exhaustive": False,
